@@ -125,8 +125,12 @@ impl MemoryManager {
     pub fn remove_token(&self, token: *const MemToken) {
         self.update_token(token);
         vpoint!(MM_REMOVE_TOKEN);
-        let mut inner = self.mem_manager.lock().unwrap();
-        inner.remove_token(token);
+        {
+            let mut inner = self.mem_manager.lock().unwrap();
+            inner.remove_token(token);
+        }
+        // free() must be able to take the manager lock itself, otherwise a retired
+        // token can never start or finish a reclamation cycle
         self.free(token as *mut MemToken, 1);
     }
 
